@@ -18,7 +18,7 @@ import (
 var rec = vh.NewRecorder("C01", "concurrent-clients",
 	"sets of 2-64 (thorough: up to 256) concurrent client requests with generated start offsets, request/response body sizes "+
 		"(0..1MiB, around 4096), backend latencies 0-100ms (so completion order is a generated permutation of arrival order), "+
-		"statuses and framings, against server+agent -race binaries run with generated GOMAXPROCS; every request carries a unique "+
+		"statuses and framings, some clients giving up (closing their connection) after 1-200ms while others arrive later, against server+agent -race binaries run with generated GOMAXPROCS; every request carries a unique "+
 		"token, the backend echoes it into status-independent places plus a per-invocation nonce; non-trivial = at least 2 requests "+
 		"measured simultaneously in flight at the backend; distinct = SHA-256 of the canonical case")
 
@@ -32,6 +32,7 @@ type Req struct {
 	StartMs   int    `json:"start_ms"`
 	Status    int    `json:"status"`
 	Chunked   bool   `json:"chunked"`
+	AbandonMs int    `json:"abandon_after_ms,omitempty"` // >0: the client gives up (closes its connection) after this long
 }
 
 type Case struct {
@@ -50,17 +51,23 @@ func genCase(t *rapid.T) Case {
 	}
 	k := rapid.IntRange(2, maxK).Draw(t, "k")
 	big := 0
+	abandoning := rapid.IntRange(0, 2).Draw(t, "abandoning") == 0
 	for i := 0; i < k; i++ {
 		r := Req{
 			Method:    rapid.SampledFrom([]string{"GET", "POST", "POST", "PUT"}).Draw(t, "method"),
 			RespSize:  rapid.SampledFrom(sizes).Draw(t, "respSize"),
-			LatencyMs: rapid.SampledFrom([]int{0, 0, 1, 5, 20, 100}).Draw(t, "latency"),
-			StartMs:   rapid.SampledFrom([]int{0, 0, 0, 1, 3, 10}).Draw(t, "start"),
+			LatencyMs: rapid.SampledFrom([]int{0, 0, 1, 5, 20, 100, 300}).Draw(t, "latency"),
+			StartMs:   rapid.SampledFrom([]int{0, 0, 0, 1, 3, 10, 60, 150, 250}).Draw(t, "start"),
 			Status:    rapid.SampledFrom([]int{200, 200, 201, 404, 500, 503}).Draw(t, "status"),
 			Chunked:   rapid.Bool().Draw(t, "chunked"),
 		}
 		if r.Method != "GET" {
 			r.ReqSize = rapid.SampledFrom(sizes).Draw(t, "reqSize")
+		}
+		if abandoning && rapid.IntRange(0, 2).Draw(t, "abandon") == 0 {
+			// a client that gives up while its request is somewhere on its way: listed, fetched, at the backend or being answered
+			r.AbandonMs = rapid.SampledFrom([]int{1, 10, 30, 100, 200}).Draw(t, "abandonMs")
+			r.LatencyMs = rapid.SampledFrom([]int{20, 100, 300, 300}).Draw(t, "abandonLatency")
 		}
 		if big < 2 && rapid.IntRange(0, 30).Draw(t, "mib") == 0 {
 			r.RespSize = 1 << 20
@@ -174,6 +181,14 @@ func runOnce(t vh.TB, c *Case, mult int) vh.Outcome {
 			} else {
 				b.WriteString("\r\n")
 			}
+			if r.AbandonMs > 0 {
+				if c, err := net.DialTimeout("tcp", e.Stack.ProxyAddr, 5*time.Second); err == nil {
+					c.Write(b.Bytes())
+					time.Sleep(time.Duration(r.AbandonMs) * time.Millisecond)
+					c.Close()
+				}
+				return
+			}
 			resp, err := vh.RawRoundTrip(e.Stack.ProxyAddr, b.Bytes(), r.Method, time.Duration(mult)*40*time.Second)
 			results[i] = result{resp: resp, err: err}
 		}()
@@ -194,6 +209,12 @@ func runOnce(t vh.TB, c *Case, mult int) vh.Outcome {
 	if len(c.Reqs) > 64 {
 		o.Classes = append(o.Classes, "clients>64")
 	}
+	for _, r := range c.Reqs {
+		if r.AbandonMs > 0 {
+			o.Classes = append(o.Classes, "some-clients-give-up")
+			break
+		}
+	}
 	seen := map[string][]*vh.RawRequest{}
 	for _, tok := range toks {
 		seen[tok] = e.Seen(tok)
@@ -213,12 +234,22 @@ func runOnce(t vh.TB, c *Case, mult int) vh.Outcome {
 		return o
 	}
 	nonces := map[string]int{}
+	abandoned := 0
 	for i, r := range c.Reqs {
 		tok := toks[i]
 		res := results[i]
 		if msg, ok := backendErrs.Load(tok); ok {
 			o.Err = fmt.Errorf("client %d: %v", i, msg)
 			return o
+		}
+		if r.AbandonMs > 0 {
+			// nothing is promised to a client that left; what the backend produced for it must simply reach nobody else
+			abandoned++
+			if len(seen[tok]) > 1 {
+				o.Err = fmt.Errorf("client %d gave up after %dms and the backend was invoked %d times for its request", i, r.AbandonMs, len(seen[tok]))
+				return o
+			}
+			continue
 		}
 		if res.err != nil {
 			o.Err = fmt.Errorf("client %d (%s) got no response (backend invoked %d times for it): %v", i, tok, len(seen[tok]), res.err)
